@@ -1462,8 +1462,17 @@ class CfRun:
 UNSET_R = object()
 
 
-def _cf_exc(aux, what):
-    return CF_EXC[aux % len(CF_EXC)](what)
+# round 5: exception classes a handler might single out ("not implemented = no gate", "timeout = retry", ...); selected by aux // 49
+CF_WIDE = [NotImplementedError, TimeoutError, StopIteration, StopAsyncIteration, AttributeError, TypeError, AssertionError, LookupError,
+           IndexError, OSError, PermissionError, ConnectionError, FileNotFoundError, UnicodeError, ArithmeticError, OverflowError,
+           RecursionError, MemoryError, NameError, ImportError, EOFError, BufferError, ReferenceError, Warning, UserWarning]
+
+
+def _cf_exc(aux, what, handler=False):
+    w, base = divmod(aux, 49)
+    if w:
+        return CF_WIDE[(w - 1 + (3 if handler else 0)) % len(CF_WIDE)](what)
+    return CF_EXC[(base // 7 if handler else base) % len(CF_EXC)](what)
 
 
 def _mk_cf_stubs(s):
@@ -1539,7 +1548,7 @@ def _mk_cf_stubs(s):
         _c, _p, b, aux = r.script[s]
         if b == 2:
             r.log.append((j, 'h', e, 'raise', None))
-            raise _cf_exc(aux // 7, "handler %d" % j)
+            raise _cf_exc(aux, "handler %d" % j, handler=True)
         if b == 1:
             o = Sig("%s.h%d" % (r.tag, j))
         elif b == 3:
@@ -1739,6 +1748,8 @@ def gen_session(rng, nops, p_run, long=False):
                     aux -= 1
                 if (aux // 7) % 7 == 6:
                     aux -= 7
+            if rng.random() < 0.3:
+                aux += 49 * rng.randrange(1, len(CF_WIDE) + 1)
             script[s] = (cp, pr, hd, aux)
         inp_kind = rng.choice([0, 0, 0, 0, 0, 0, 1, 1, 2, 3, 4, 5, 6])
         obs_raise = ()
